@@ -869,7 +869,7 @@ def string_program(case, forms):
     elif op == "length":
         body = "length(%s)" % texts[0]
     else:
-        body = "var c = %s[%s]; prints(\"[\" + c + \"]\\n\"); 0" % tuple(texts)
+        body = "let c = %s[%s]; prints(\"[\" + c + \"]\\n\"); 0" % tuple(texts)
     return "func main() -> int { %s %s }" % (" ".join(binds), body)
 
 
@@ -877,11 +877,13 @@ def string_outcome(rec):
     """whole observable outcome of a run: (everything printed, result / exception)"""
     if rec is None:
         return ("", ("crash", "driver-lost"))
-    txt = "\n".join(l for l in rec["lines"] if not (l.startswith("machine:") or l.startswith("\t")))
     o = al.classify_run(rec)
+    # what the program itself printed (diagnostics carry line numbers, which depend on the
+    # newlines inside string literals: they are represented by the outcome class)
+    txt = al.program_text(rec).replace("-nan", "nan") if o[0] in ("val", "fault") else ""
     if o[0] == "crash":
         o = ("crash", "assert" if o[1].startswith("assert") else o[1])
-    return (txt.strip("\n"), o)
+    return (txt, o)
 
 
 def string_reference(case):
